@@ -104,25 +104,29 @@ Definition val_of_client_rec (c : client_rec) : val :=
       VN (cr_ver c); VN (cr_sei c); vbool (cr_sei_flag c); VN (cr_rpi c); vbool (cr_rpi_flag c);
       cr_props c; cr_will c].
 
+(* a stored client record as read back, with its T field *)
+Definition val_of_stored_client (c : client_rec) : val :=
+  match val_of_client_rec c with VL l => VL (l ++ [VB (type_tag TCL)]) | v => v end.
+
 Definition val_of_sub_rec (s : sub_rec) : val :=
   VL [VB (sr_key s); VB (sr_client s); VB (sr_filter s); VN (sr_identifier s); VN (sr_rh s); VN (sr_qos s);
-      vbool (sr_rap s); vbool (sr_nolocal s)].
+      vbool (sr_rap s); vbool (sr_nolocal s); VB (type_tag TSUB)].
 
-Definition val_of_msg_rec (m : msg_rec) : val :=
+Definition val_of_msg_rec (t : rtype) (m : msg_rec) : val :=
   VL [VB (mr_key m); VB (mr_client m); VB (mr_origin m); VN (mr_pid m); mr_fh m; VB (mr_topic m);
       VB (mr_payload m); VN (mr_sent m); VN (mr_created m); VN (mr_pf m); vbool (mr_pf_flag m);
-      VN (mr_mei m); mr_props m].
+      VN (mr_mei m); mr_props m; VB (type_tag t)].
 
 (* system.Info zero value: version "" and twenty zero counters *)
 Definition zero_info : val := VL (VB [] :: repeat (VN 0) 20).
 
 Definition val_of_sys (s : option (bytes * val)) : val :=
-  match s with Some (id, info) => VL [VB id; info] | None => VL [VB []; zero_info] end.
+  match s with Some (id, info) => VL [VB id; info; VB (type_tag TSYS)] | None => VL [VB []; zero_info; VB []] end.
 
 (* components of a read-back as lists of values: clients, subscriptions, in-flight, retained, [sys] *)
 Definition vals_of_readback (r : readback) : list (list val) :=
-  [map val_of_client_rec (rb_clients r); map val_of_sub_rec (rb_subs r);
-   map val_of_msg_rec (rb_inflight r); map val_of_msg_rec (rb_retained r); [val_of_sys (rb_sys r)]].
+  [map val_of_stored_client (rb_clients r); map val_of_sub_rec (rb_subs r);
+   map (val_of_msg_rec TIFM) (rb_inflight r); map (val_of_msg_rec TRET) (rb_retained r); [val_of_sys (rb_sys r)]].
 
 Definition parse_observed (v : val) : option (list (list val)) :=
   match v with
